@@ -27,6 +27,15 @@
    boundary (never the case under the storage invariant, DeleteProofs.wf_chan) is rounded
    as those two functions say.  For an index channel the sample values are the stamps.
 
+   The parameter [fx] selects between the code as pinned upstream ([fx = false]) and the code
+   of /repo after the C04 fix commit ([fx = true], what the correspondence runs against):
+   validateDelete compared the start offset with the END pointer's length (finding F16),
+   calculateEndOffset snapped to the lower stamp bound when both the domain start and the
+   target are inexact (F17), calculateStartOffset snapped to the lower stamp bound (+1) when
+   only the domain start is inexact (F18) and asked for Stamp(start, -1) when the target is
+   the domain's first sample (F19).  The [fx = false] branches are kept for the refutation
+   lemmas of DeleteRefuted.v.
+
    Interface assumptions (validated on every run by the correspondence, not proved here):
    - sequential histories: no writer or iterator is open while Delete / GC run, so
      lockControllerForNonWriteOp succeeds, the "repêchage" re-search is the identity, and
@@ -133,7 +142,7 @@ Definition resolve_byte_offset (c : chan) (ds : Z) (idx : Z) : res Z :=
 
 (* ------------------------------------------------------------------ unary/delete.go *)
 (* calculateStartOffset: (byte offset, snapped stamp) *)
-Definition calc_start_offset (P : list dom) (c : chan) (ds ts : Z) : res (Z * Z) :=
+Definition calc_start_offset (fx : bool) (P : list dom) (c : chan) (ds ts : Z) : res (Z * Z) :=
   do a <- distance P (TR ds ts) true;
   let so := da_hi a in
   if negb (da_exact a) then
@@ -146,8 +155,12 @@ Definition calc_start_offset (P : list dom) (c : chan) (ds ts : Z) : res (Z * Z)
         do b <- resolve_byte_offset c ds so; Ok (b, s_hi st + 1)
     else if negb (da_se a) then
       let so := da_lo a in
-      do st <- stamp P ds (so - 1) true;
-      do b <- resolve_byte_offset c ds so; Ok (b, s_lo st + 1)
+      if fx && (so =? 0) then
+        do b <- resolve_byte_offset c ds so; Ok (b, ts)
+      else
+        do st <- stamp P ds (so - 1) true;
+        do b <- resolve_byte_offset c ds so;
+        Ok (b, (if fx then s_hi st else s_lo st) + 1)
     else
       do st <- stamp P ds (so - 1) true;
       do b <- resolve_byte_offset c ds so; Ok (b, s_hi st + 1)
@@ -155,14 +168,14 @@ Definition calc_start_offset (P : list dom) (c : chan) (ds ts : Z) : res (Z * Z)
     do b <- resolve_byte_offset c ds so; Ok (b, ts).
 
 (* calculateEndOffset *)
-Definition calc_end_offset (P : list dom) (c : chan) (ds ts : Z) : res (Z * Z) :=
+Definition calc_end_offset (fx : bool) (P : list dom) (c : chan) (ds ts : Z) : res (Z * Z) :=
   do a <- distance P (TR ds ts) true;
   let so := da_hi a in
   if negb (da_exact a) then
     if negb (da_se a) && negb (da_ee a) then
       let so := (da_lo a + da_hi a) ÷ 2 in
       do st <- stamp P ds so true;
-      do b <- resolve_byte_offset c ds so; Ok (b, s_lo st)
+      do b <- resolve_byte_offset c ds so; Ok (b, if fx then s_hi st else s_lo st)
     else if negb (da_se a) then
       let so := da_lo a in
       do st <- stamp P ds so true;
@@ -178,7 +191,7 @@ Inductive vres := VSkip | VGo (so eo : Z) | VErr.
 
 (* validateDelete; [ps] is non-empty and sd <= len-1, ed >= 0 are checked by its first
    two tests, so the two size lookups below are in range *)
-Definition validate_delete (ps : list ptr) (sd ed so eo : Z) : vres :=
+Definition validate_delete (fx : bool) (ps : list ptr) (sd ed so eo : Z) : vres :=
   if sd =? zlen ps then VSkip else
   if ed =? -1 then VSkip else
   let so := if so <? 0 then 0 else so in
@@ -191,7 +204,7 @@ Definition validate_delete (ps : list ptr) (sd ed so eo : Z) : vres :=
       let eo := if epl <? eo then epl else eo in
       if (ed <? sd) && (negb (sd =? ed + 1) || negb (so =? 0) || negb (eo =? 0)) then VErr
       else if (sd =? ed) && (spl <? so + eo) then VErr
-      else if ((sd =? ed - 1) && (so =? epl) && (eo =? epl)) ||
+      else if ((sd =? ed - 1) && (so =? (if fx then spl else epl)) && (eo =? epl)) ||
               ((sd =? ed) && (so + eo =? spl)) then VSkip
       else VGo so eo
   | _, _ => VErr  (* index out of range: a run-time panic in Go; unreachable *)
@@ -199,7 +212,7 @@ Definition validate_delete (ps : list ptr) (sd ed so eo : Z) : vres :=
 
 (* domain.DB.Delete with the two offset resolvers of unary/delete.go.
    Err = the call returned an error and changed nothing. *)
-Definition dom_delete (P : list dom) (c : chan) (t : tr) : res chan :=
+Definition dom_delete (fx : bool) (P : list dom) (c : chan) (t : tr) : res chan :=
   let ps := c_ptrs c in
   let D := doms c in
   (* start position: the first domain containing or after t.start *)
@@ -209,7 +222,7 @@ Definition dom_delete (P : list dom) (c : chan) (t : tr) : res chan :=
   match znth ps sd with
   | None => Err EPanic
   | Some sp =>
-      do so_a <- (if sx then calc_start_offset P c (t_s (p_tr sp)) (t_s t)
+      do so_a <- (if sx then calc_start_offset fx P c (t_s (p_tr sp)) (t_s t)
                   else Ok (0, t_s (p_tr sp)));
       let '(so, a') := so_a in
       (* end position: the first domain containing or before t.end *)
@@ -219,11 +232,11 @@ Definition dom_delete (P : list dom) (c : chan) (t : tr) : res chan :=
       | None => Err EPanic
       | Some ep =>
           do eo_b <- (if ex then
-                        do r <- calc_end_offset P c (t_s (p_tr ep)) (t_e t);
+                        do r <- calc_end_offset fx P c (t_s (p_tr ep)) (t_e t);
                         Ok (p_size ep - fst r, snd r)
                       else Ok (0, t_e (p_tr ep)));
           let '(eo, b') := eo_b in
-          match validate_delete ps sd ed so eo with
+          match validate_delete fx ps sd ed so eo with
           | VSkip => Ok c
           | VErr => Err EValidation
           | VGo so eo =>
@@ -239,12 +252,18 @@ Definition dom_delete (P : list dom) (c : chan) (t : tr) : res chan :=
       end
   end.
 
-(* unary.DB.delete *)
-Definition unary_delete (P : list dom) (c : chan) (t : tr) : res chan :=
-  if negb (tr_valid t) then Err EValidation else dom_delete P c t.
+(* TimeRange.IsZero *)
+Definition tr_is_zero (t : tr) : bool := (t_s t =? 0) && (t_e t =? 0).
+
+(* unary.DB.delete; lockControllerForNonWriteOp opens a control gate whose configuration
+   is rejected for the zero time range (GateConfig.Validate: time_range must be non-zero) *)
+Definition unary_delete (fx : bool) (P : list dom) (c : chan) (t : tr) : res chan :=
+  if negb (tr_valid t) then Err EValidation
+  else if tr_is_zero t then Err EValidation
+  else dom_delete fx P c t.
 
 (* domain.DB.HasDataFor *)
-Definition has_data_for (c : chan) (t : tr) : bool :=
+Definition dom_has_data_for (c : chan) (t : tr) : bool :=
   let D := doms c in
   let it0 := di_open (TR 0 MAXTS) in
   let '(i1, ok1) := di_seek_ge D it0 (t_s t) in
@@ -252,6 +271,11 @@ Definition has_data_for (c : chan) (t : tr) : bool :=
   else
     let '(i2, ok2) := di_seek_le D it0 (t_e t) in
     ok2 && overlaps (di_tr i2) t.
+
+(* unary.DB.HasDataFor as used by the guard: a gate that cannot be opened (zero time
+   range) is reported as (true, err), which the guard treats as "has data" *)
+Definition has_data_for (c : chan) (t : tr) : bool :=
+  tr_is_zero t || dom_has_data_for c t.
 
 (* ------------------------------------------------------------------ cesium/delete.go *)
 (* classification pass of DeleteTimeRange: None = ErrChannelNotFound *)
@@ -265,20 +289,20 @@ Fixpoint classify (d : db) (chs : list Z) : option (list Z * list Z) :=
       end
   end.
 
-Definition delete_one (d : db) (k : Z) (t : tr) : res db :=
+Definition delete_one (fx : bool) (d : db) (k : Z) (t : tr) : res db :=
   match alookup k d with
   | None => Ok d
-  | Some c => do c' <- unary_delete (index_doms d c) c t; Ok (aset k c' d)
+  | Some c => do c' <- unary_delete fx (index_doms d c) c t; Ok (aset k c' d)
   end.
 
 (* the state is returned together with the error: a failure leaves the deletions already
    performed on earlier channels in place *)
-Fixpoint delete_data (d : db) (ks : list Z) (t : tr) : db * option err :=
+Fixpoint delete_data (fx : bool) (d : db) (ks : list Z) (t : tr) : db * option err :=
   match ks with
   | [] => (d, None)
   | k :: r =>
-      match delete_one d k t with
-      | Ok d' => delete_data d' r t
+      match delete_one fx d k t with
+      | Ok d' => delete_data fx d' r t
       | Err e => (d, Some e)
       end
   end.
@@ -287,24 +311,24 @@ Fixpoint delete_data (d : db) (ks : list Z) (t : tr) : db * option err :=
 Definition dependants_have_data (d : db) (k : Z) (t : tr) : bool :=
   existsb (fun kc => negb (fst kc =? k) && (c_index (snd kc) =? k) && has_data_for (snd kc) t) d.
 
-Fixpoint delete_index (d : db) (ks : list Z) (t : tr) : db * option err :=
+Fixpoint delete_index (fx : bool) (d : db) (ks : list Z) (t : tr) : db * option err :=
   match ks with
   | [] => (d, None)
   | k :: r =>
       if dependants_have_data d k t then (d, Some EConflict)
-      else match delete_one d k t with
-           | Ok d' => delete_index d' r t
+      else match delete_one fx d k t with
+           | Ok d' => delete_index fx d' r t
            | Err e => (d, Some e)
            end
   end.
 
-Definition delete_time_range (d : db) (chs : list Z) (t : tr) : db * option err :=
+Definition delete_time_range (fx : bool) (d : db) (chs : list Z) (t : tr) : db * option err :=
   match classify d chs with
   | None => (d, Some ENotFound)
   | Some (ix, da) =>
-      match delete_data d da t with
+      match delete_data fx d da t with
       | (d1, Some e) => (d1, Some e)
-      | (d1, None) => delete_index d1 ix t
+      | (d1, None) => delete_index fx d1 ix t
       end
   end.
 
